@@ -23,7 +23,7 @@ use std::sync::Mutex;
 
 /// Control surface of the simulator.
 pub mod sim {
-    pub use crate::sched::{run, run_multi, Config, Decision, Report, Stats, Strategy, MAX_WORKERS};
+    pub use crate::sched::{blocked_point, is_baton_holder, owns_address, preempt_point, run, run_multi, Config, Decision, Report, Stats, Strategy, MAX_WORKERS};
     /// true while the calling thread is a simulated thread of an active simulation
     pub fn in_simulation() -> bool {
         crate::sched::current_tid().is_some()
